@@ -195,7 +195,7 @@ def r4(ctx):
         ctx.fail(fi, "per-point values are not computed by point_log_likelihood", role="per-point", found=f"{len(appends)} append(s)")
 
 
-@rule("C05", "R5", "NUM", "log-determinants used for scoring stay finite (no determinant is formed)", floor=3)
+@rule("C05", "R5", "NUM", "log-determinants used for scoring stay finite (no determinant is formed)", floor=3, evidence=True)
 def r5(ctx):
     from . import c03
     ctx.sub(c03.r5)
